@@ -728,7 +728,8 @@ class Gen:
             if self.chance(1, 3):
                 return (self.tag(f"trans {v}={e}, n={self.e_int(sc, 1)}") + "one thing " + self.var(v)
                         + self.tag("pluralize n") + self.var("n") + " things " + self.var(v) + self.tag("endtrans"))
-            return self.tag(f"trans {v}={e}") + "some text " + self.var(v) + " and more" + self.tag("endtrans")
+            # (a line break and indentation inside the block: the `trimmed` policy / option would change the message)
+            return self.tag(f"trans {v}={e}") + "some text\n  " + self.var(v) + " and more" + self.tag("endtrans")
         if k == 25:
             P.feat("debug_tag")
             return self.tag("debug")
@@ -1119,6 +1120,7 @@ class Gen:
                 ("l1|sum", "lw|sum(start=l0)|length"),
                 ("s1|indent", "s1|indent(3, true)"),
                 ("l1|batch(2)|list|length", "l1|unique|list|length"),
+                ("ld|tojson", "o1|tojson(indent=2)"),
             ]
             if self.is_async:
                 pairs += [("l1|batch(2)|list|length", "gc1(2)"), ("l1|unique|list|length", "gc1(n1)"),
@@ -1130,6 +1132,11 @@ class Gen:
                 P.templates[other[0]] += self.var(plain)
             else:
                 P.templates["main"] += self.var(plain) + self.var(arg)
+        if self.i18n and P.features.get("include_without_context") and "trans " in P.templates.get("inc", ""):
+            # `include ... without context` emits the CACHED default module's body: a translation inside it was made once,
+            # under whatever catalog / locale the first render had (the cached-module finding KF-C29-1, not interference
+            # between the renders as such)
+            P.tags.add("module_i18n")
         return P
 
 
@@ -1179,6 +1186,12 @@ MICRO_PAIRS = [
     ("range(n1 % 4)|list|string", "range(1, n2 % 5 + 2, 2)|list|string"),
     ("cycler('a', 'b').next()", "joiner('|')() ~ '.'"),
     ("namespace(x=n1).x", "dict(a=s1)|tojson"),
+    # (round 9) the sandbox intercepts str.format: method lookup and call are separated by the await of an argument
+    ("'A{}:{}'.format(gf(1), s1)", "'B{}+{}'.format(s2, gf(2))"),
+    # a filter that takes the eval context, applied THROUGH map, from templates with different escaping (by name)
+    ("[[s2, 'R&D'], [s1]]|map('join', ', ')|join('/')", "[[s1, '<x>'|safe], ['&']]|map('join', '; ')|join"),
+    # a failing use (an object is not serialisable: the render raises) next to a plain use of the same filter
+    ("ld|tojson", "o1|tojson(indent=2)"),
 ]
 
 
